@@ -41,7 +41,34 @@ def pred_label_is_selector(v):
     return bool(op) and op.get("label") in ("first", "last")
 
 
+def pred_fluent_distribute_source_range(v):
+    """Fluent, culprit is a distribute from a trough with >= 2 virtual rows, and it is the *source* side
+    of the R record that cannot be decoded."""
+    spec = v["spec"]
+    op = _culprit_op(v)
+    if not op or op.get("op") != "distribute" or spec["world"].get("device") != "fluent":
+        return False
+    if (v["violation"].get("facts") or {}).get("side") != "source":
+        return False
+    labs = spec["world"]["labware"]
+    si = op.get("src")
+    if not isinstance(si, int) or not 0 <= si < len(labs):
+        return False
+    src = labs[si]
+    if not (src.get("kind") == "trough" and src.get("vrows", 1) >= 2):
+        return False
+    # exactly the documented defect: the source range is the EVO numbering of that column
+    rec = (v["violation"].get("facts") or {}).get("record") or ""
+    f = rec.split(";")
+    col = op.get("col")
+    if len(f) < 16 or f[0] != "R" or not isinstance(col, int):
+        return False
+    vr = src["vrows"]
+    return f[4] == str(1 + vr * col) and f[5] == str(vr * col + vr)
+
+
 PREDICATES = {
+    "fluent_distribute_source_range": pred_fluent_distribute_source_range,
     "evo_wells_not_ascending": pred_evo_wells_not_ascending,
     "label_is_selector": pred_label_is_selector,
 }
